@@ -46,11 +46,14 @@ pub struct Queues {
     /// must not write) with garbage after it has fetched what it needs.
     pub scribble: Option<u8>,
     pub scribbles: u64,
+    /// Write misleading values into the notification-suppression field of the mechanism that was
+    /// not negotiated (see `arm`).
+    pub decoys: bool,
 }
 
 impl Queues {
     pub fn new(policy: Serve) -> Self {
-        Queues { v: Vec::new(), policy, policy_of: Vec::new(), interrupts: 0, completions: 0, scribble: SCRIBBLE_ALL.with(|s| s.get()), scribbles: 0 }
+        Queues { v: Vec::new(), policy, policy_of: Vec::new(), interrupts: 0, completions: 0, scribble: SCRIBBLE_ALL.with(|s| s.get()), scribbles: 0, decoys: true }
     }
 
     /// Overwrite driver-owned queue areas of queue `q` (everything except the available index,
@@ -97,15 +100,22 @@ impl Queues {
     /// Tell the driver whether we want notifications, according to the policy.
     pub fn arm(&mut self, w: &mut World, q: u16) {
         let pol = self.policy_for(q);
+        let decoys = self.decoys;
         let Some(s) = self.v.get_mut(q as usize).and_then(|s| s.as_mut()) else { return };
+        // The field of the mechanism that was *not* negotiated is a decoy: the driver MUST ignore
+        // used.flags bit 0 when EVENT_IDX was negotiated and MUST ignore avail_event when it was
+        // not (VirtIO 1.2, 2.7.10.1), so the device puts there whatever would mislead a driver
+        // that looks at the wrong one: "do not notify" while it waits for a notification.
+        let wants_notify = !matches!(pol, Serve::Poll);
         let r = if s.rq.event_idx {
             let ev = match pol {
                 Serve::Poll => s.rq.next_avail.wrapping_add(0x8000),
                 _ => s.rq.next_avail,
             };
-            s.rq.set_avail_event(&w.hal, ev)
+            s.rq.set_avail_event(&w.hal, ev).and_then(|_| if decoys { s.rq.set_used_flags(&w.hal, wants_notify as u16) } else { Ok(()) })
         } else {
-            s.rq.set_used_flags(&w.hal, matches!(pol, Serve::Poll) as u16)
+            let decoy = if wants_notify { s.rq.next_avail.wrapping_add(0x4000) } else { s.rq.next_avail };
+            s.rq.set_used_flags(&w.hal, matches!(pol, Serve::Poll) as u16).and_then(|_| if decoys { s.rq.set_avail_event(&w.hal, decoy) } else { Ok(()) })
         };
         if let Err(m) = r {
             w.fault("devmem", format!("device cannot write its notification-suppression field of queue {}: {}", q, m));
@@ -126,6 +136,18 @@ impl Queues {
                 Err(m) => {
                     w.fault("chain", format!("queue {}: {}", q, m));
                     break;
+                }
+            }
+        }
+        {
+            // used_event belongs to the event-index mechanism: without the feature the driver
+            // has no business writing it (the ring was zeroed when the queue was created)
+            let s = self.v[q as usize].as_ref().unwrap();
+            if !s.rq.event_idx && self.scribble.is_none() {
+                if let Ok(ue) = s.rq.used_event(&w.hal) {
+                    if ue != 0 {
+                        w.fault("unnegotiated", format!("queue {}: the driver wrote used_event = {} although EVENT_IDX was not negotiated", q, ue));
+                    }
                 }
             }
         }
